@@ -7,7 +7,7 @@ variant table (sa/variants.py) keeps one positive example per rule alive in ever
 """
 import ast
 from ..common import calls_in, norm, kw
-from ..model import body_nodes, FunctionInfo
+from ..model import body_nodes, FunctionInfo, AnalysisError
 from ..cfg import cfg_of
 
 INF_POS = {"np.inf", "numpy.inf", "math.inf", "float('inf')", 'float("inf")', "np.PINF", "inf"}
@@ -752,15 +752,20 @@ def language_traps(ctx, fns, clause):
                     return True
                 if isinstance(par, ast.Assign) and par.value is node and isinstance(par.targets[0], (ast.Tuple, ast.List)):
                     return True
+                # methods that take ONE sequence argument: csv's writerow, list.extend, str.join
+                if isinstance(par, ast.Call) and isinstance(par.func, ast.Attribute) and par.func.attr in ("writerow", "extend", "join") \
+                        and node in par.args:
+                    return True
                 return False
             for c in star_calls:
                 src_ = norm(c.args[0].value)
                 from ..facts import facts_at
                 import re as _reg
-                if any(k == "T" and _reg.search(r"len\(" + _reg.escape(src_) + r"\) (>|>=) [12]", t) for k, t in facts_at(f, c)):
+                if any(k == "T" and _reg.search(r"len\(" + _reg.escape(src_) + r"\) (>|>=|!=) [12]", t) for k, t in facts_at(f, c)):
                     continue
                 gname = next((g for g, gc in getters.items() if gc is c), None)
                 results = []      # expressions that hold ONE getter result
+                colls = set()     # locals whose ELEMENTS are getter results
                 for x in nodes:
                     if isinstance(x, ast.Call) and ((gname and isinstance(x.func, ast.Name) and x.func.id == gname) or x.func is c):
                         results.append(x)
@@ -769,18 +774,85 @@ def language_traps(ctx, fns, clause):
                             ((gname and isinstance(x.args[0], ast.Name) and x.args[0].id == gname) or x.args[0] is c):
                         mp = parent.get(x)
                         if isinstance(mp, ast.Assign) and isinstance(mp.targets[0], ast.Name):
-                            rn = mp.targets[0].id
-                            for comp in [y for y in nodes if isinstance(y, (ast.GeneratorExp, ast.ListComp, ast.DictComp, ast.SetComp))]:
-                                for g_ in comp.generators:
-                                    if isinstance(g_.iter, ast.Name) and g_.iter.id == rn and isinstance(g_.target, ast.Name):
-                                        results += [y for y in ast.walk(comp) if isinstance(y, ast.Name) and y.id == g_.target.id
-                                                    and isinstance(y.ctx, ast.Load)]
+                            colls.add(mp.targets[0].id)
+                        elif isinstance(mp, (ast.For, ast.comprehension)) and mp.iter is x and isinstance(mp.target, ast.Name):
+                            results += [y for y in nodes if isinstance(y, ast.Name) and y.id == mp.target.id and isinstance(y.ctx, ast.Load)]
+                # one level of local flow: v = getter(x); R = [getter(x) for x in rows]; for y in R: ... y ...
+                seen_r, work = set(), list(results)
+                while work:
+                    r = work.pop()
+                    if id(r) in seen_r:
+                        continue
+                    seen_r.add(id(r))
+                    par = parent.get(r)
+                    if isinstance(par, ast.Assign) and par.value is r and len(par.targets) == 1 and isinstance(par.targets[0], ast.Name):
+                        more = [y for y in nodes if isinstance(y, ast.Name) and y.id == par.targets[0].id and isinstance(y.ctx, ast.Load)
+                                and getattr(y, "lineno", 0) > par.lineno]
+                        results += more
+                        work += more
+                    if isinstance(par, (ast.ListComp, ast.GeneratorExp, ast.SetComp)) and par.elt is r:
+                        pp = parent.get(par)
+                        if isinstance(pp, ast.Assign) and isinstance(pp.targets[0], ast.Name):
+                            colls.add(pp.targets[0].id)
+                        elif isinstance(pp, (ast.For, ast.comprehension)) and pp.iter is par and isinstance(pp.target, ast.Name):
+                            more = [y for y in nodes if isinstance(y, ast.Name) and y.id == pp.target.id and isinstance(y.ctx, ast.Load)]
+                            results += more
+                            work += more
+                for it in [y for y in nodes if isinstance(y, (ast.For, ast.comprehension)) and isinstance(y.iter, ast.Name) and y.iter.id in colls
+                           and isinstance(y.target, ast.Name)]:
+                    scope = parent.get(it) if isinstance(it, ast.comprehension) else it
+                    results += [y for y in ast.walk(scope) if isinstance(y, ast.Name) and y.id == it.target.id and isinstance(y.ctx, ast.Load)]
                 bad = [r for r in results if seq_use(r)]
                 if bad:
                     ctx.ob("TRAP-getter", f, norm(c)[:60], bad[0], False,
                            f"{norm(c)[:50]} returns a tuple for two or more names but the BARE element for exactly one; the result is used as a "
                            f"sequence ({norm(parent.get(bad[0]))[:50]}): with a single name a string is zipped / iterated character by character",
                            clause=clause)
+    # ---- TRAP-npunique: np.unique(x) without index / inverse / counts sorts through x.sort() IN PLACE -- for an instance of
+    # an ndarray subclass whose sort() returns a sorted COPY (dataiter's Vector) nothing is sorted and runs, not values,
+    # are counted.  (With return_index / return_inverse / return_counts NumPy takes the argsort path, which is fine.)
+    # ---- TRAP-isscalar: np.isscalar matches Python scalars by exact type: a str / bytes subclass instance (enum member)
+    # is "not a scalar" unless an isinstance test over str stands next to it.
+    ctx.rule("TRAP-npunique", "np.unique without index/inverse/counts is not applied to a value that may be an ndarray-subclass instance whose sort() is not in place")
+    ctx.rule("TRAP-isscalar", "np.isscalar(v) decides scalar-ness only together with an isinstance test over str")
+    PLAIN = ("np.asarray", "np.array", "numpy.asarray", "numpy.array", "list", "sorted", "tuple", "np.flatnonzero", "np.arange", "np.where",
+             "np.concatenate", "np.ascontiguousarray")
+    n_u = n_s = 0
+    for fn in fns:
+        for f in _all_fns([fn]):
+            if any("njit" in norm(d) or "overload" in norm(d) for d in f.node.decorator_list):
+                continue
+            parent = f.module.parent
+            for c in [x for x in body_nodes(f.node) if isinstance(x, ast.Call)]:
+                fname = norm(c.func)
+                if fname in ("np.unique", "numpy.unique") and c.args:
+                    if any(k.arg in ("return_index", "return_inverse", "return_counts") and not (isinstance(k.value, ast.Constant) and k.value.value is False)
+                           for k in c.keywords):
+                        continue
+                    a0 = c.args[0]
+                    plain = (isinstance(a0, ast.Call) and (norm(a0.func) in PLAIN or (isinstance(a0.func, ast.Attribute) and a0.func.attr in ("tolist",))
+                                                          or (isinstance(a0.func, ast.Attribute) and a0.func.attr == "view" and a0.args
+                                                              and norm(a0.args[0]) in ("np.ndarray", "numpy.ndarray")))) \
+                        or isinstance(a0, (ast.List, ast.Tuple, ast.ListComp))
+                    n_u += 1
+                    if not plain:
+                        ctx.ob("TRAP-npunique", f, norm(c)[:70], c, False,
+                               f"{norm(c)[:60]} takes NumPy's sort-in-place path (`ar.sort()`); for a Vector, whose sort() returns a sorted copy and leaves "
+                               f"the array as it is, the values stay unsorted and every run of equal neighbours counts as a distinct value "
+                               f"([1, 2, 1] -> 3 uniques)", clause=clause)
+                if fname in ("np.isscalar", "numpy.isscalar") and c.args:
+                    n_s += 1
+                    top = c
+                    while isinstance(parent.get(top), ast.BoolOp) and isinstance(parent.get(top).op, ast.Or):
+                        top = parent.get(top)
+                    v = norm(c.args[0])
+                    has_str = any(isinstance(x, ast.Call) and norm(x.func) == "isinstance" and len(x.args) == 2 and norm(x.args[0]) == v
+                                  and any(isinstance(t, ast.Name) and t.id == "str" for t in ast.walk(x.args[1])) for x in ast.walk(top))
+                    ctx.ob("TRAP-isscalar", f, norm(top)[:70], c, has_str,
+                           "an isinstance test over str stands next to np.isscalar" if has_str else
+                           f"np.isscalar({v}) recognises Python scalars by EXACT type (plus numbers.Number): an instance of a str subclass -- a "
+                           f"`class Color(str, Enum)` member, a StrEnum -- is not a scalar, so it is iterated character by character instead of "
+                           f"being broadcast", clause=clause)
     ctx.note(f"TRAP: {n['iter']} one-shot iterators bound to locals, {n['late']} closures over loop variables, "
              f"{n['default']} mutable defaults, {n['shared']} fromkeys(keys, value) calls examined")
 
@@ -897,3 +969,56 @@ def raises_inside_domain(ctx, fn, param, grid, what, clause, rule="GRD-domain", 
                    + (f" with length {[hit[l] for l in lengths][0]}" if lengths else "") + f", which is {what}: the call raises instead of "
                    f"computing the documented result", clause=clause)
     ctx.note(f"{rule}: {n} validation(s) of {param} in {fn.qualname} examined")
+
+
+def rank_orders_values(ctx, rank, clause, rule="ORD-rank"):
+    """ORD-rank: Vector.rank orders the VALUES of the vector.  Each rebinding of the ranked variable before the ordering
+    primitive is judged: order-preserving ones (the fixed-width string optimisation, a copy / view, the constant stand-in
+    for an entirely missing vector under `na.all()`) pass; an elementwise conversion to text (as_string, astype(str),
+    str(x) for x in ...) makes numbers order as text ("10" < "9") and turns None into the string "None", which is no
+    longer missing -- reported; anything else cannot be judged here (analysis error)."""
+    from ..dataflow import defs_reaching
+    from ..facts import facts_at
+    ctx.rule(rule, "what rank orders is the vector itself or an order-preserving image of it, never its text")
+    R0 = rank.params[0]
+    n = 0
+    for a in [x for x in body_nodes(rank.node) if isinstance(x, ast.Assign) and len(x.targets) == 1 and isinstance(x.targets[0], ast.Name)
+              and x.targets[0].id == R0]:
+        v = a.value
+        t = norm(v)
+        n += 1
+        if t in (f"{R0}._optimize_for_argsort()", f"{R0}.copy()", f"{R0}.view()"):
+            ctx.ob(rule, rank, t, a, True, "order-preserving", nontrivial=False)
+            continue
+        if isinstance(v, ast.Call) and norm(v.func) == f"{R0}.fast" and v.args and norm(v.args[0]).startswith(("np.repeat(", "np.full(", "np.ones(", "np.zeros(", "np.full_like(", "np.ones_like(", "np.zeros_like(")) \
+                and any(k == "T" and t_.endswith(".all()") and "na" in t_ for k, t_ in facts_at(rank, a)):
+            ctx.ob(rule, rank, t[:60], a, True, "constant stand-in, entirely missing vectors only", nontrivial=False)
+            continue
+        textual = any((isinstance(c, ast.Call) and isinstance(c.func, ast.Attribute) and c.func.attr in ("as_string", "to_strings"))
+                      or (isinstance(c, ast.Call) and isinstance(c.func, ast.Attribute) and c.func.attr == "astype" and c.args and norm(c.args[0]) in ("str", "np.str_", "dtypes.string"))
+                      or (isinstance(c, ast.Call) and isinstance(c.func, ast.Name) and c.func.id in ("str", "repr"))
+                      for c in ast.walk(v))
+        if textual:
+            ctx.ob(rule, rank, t[:70], a, False,
+                   f"rank orders {t[:50]} instead of the values: numbers held in the vector are ordered as text ('10' < '9', '-1' < '-10'), and None "
+                   f"becomes the string 'None', which is not missing and is ranked alphabetically instead of last", clause=clause)
+            continue
+        raise AnalysisError(f"{rank.qualname}: {R0} is rebound to `{t[:60]}` before ranking: cannot tell whether the order of the values is kept")
+    ctx.note(f"{rule}: {n} rebinding(s) of the ranked vector examined")
+
+
+def bitpattern_keys(ctx, uq, clause, rule="GRD-sentinel"):
+    """A key column reinterpreted as integers (column.view("i8")) is compared by BIT PATTERN: 0.0 and -0.0, and NaNs that
+    differ in sign or payload (0/0 on x86 is the negative NaN, float("nan") the positive one), are equal as values and
+    as sort keys but different bit patterns.  Returns True when such a view was found (and reported)."""
+    hits = [c for _, c in calls_in(uq) if isinstance(c.func, ast.Attribute) and c.func.attr == "view" and c.args
+            and ((isinstance(c.args[0], ast.Constant) and isinstance(c.args[0].value, str) and c.args[0].value.lstrip("<>=|")[:1] in ("i", "u"))
+                 or (isinstance(c.args[0], ast.JoinedStr) and c.args[0].values and isinstance(c.args[0].values[0], ast.Constant)
+                     and str(c.args[0].values[0].value).lstrip("<>=|")[:1] in ("i", "u"))
+                 or norm(c.args[0]) in ("int", "np.int64", "np.uint64", "np.int32"))]
+    for c in hits:
+        ctx.ob(rule, uq, norm(c)[:60], c, False,
+               f"{norm(c)[:50]} turns the key into its bit pattern: 0.0 and -0.0 become different keys, and so do NaNs of different sign or "
+               f"payload -- values that are equal (or equally missing) are split into several groups, which sort still treats as ties",
+               clause=clause)
+    return bool(hits)
